@@ -70,5 +70,12 @@ LiveConfigs ==
     \cup {Two("RootStopped", 0, <<1, 1>>, "MetaepochLimit", n, "DontStop", 0, 0) : n \in 1..3}
     \* (not Three("AllStopped"): its root stops only when all its children have - it may sprout for ever, the state space is infinite)
 
+\* --- caller-driven stepping: scripted conditions (the global one latches) and the monotone shipped ones
+ManualConfigs ==
+    ScriptedConfigs
+    \cup {Two("MetaepochLimit", n, <<1, 1>>, "DontStop", 0, "MetaepochLimit", 1, h) : n \in 0..2, h \in {0, 1}}
+    \cup {Two("SingularEvalLimit", n, <<1, 1>>, "DontStop", 0, "DontStop", 0, 0) : n \in {2, 5}}
+    \cup {Three("MetaepochLimit", 2, <<1, 1, 1>>, h) : h \in {0, 1}}
+
 QuickConfigs == ScriptedConfigs \cup ShippedConfigs \cup LocalMethodConfigs \cup BudgetConfigs
 =============================================================================
